@@ -331,42 +331,45 @@ theorem invert_spec [Fact p.Prime] {a b : Poly} (ha : WF p a) (hb : WF p b) :
         rw [← huv]
         exact dvd_add (hd.1.mul_left u) (hd.2.mul_left v)
       exact isUnit_of_dvd_one this
+  have herr : ¬ IsUnit (toPoly p r.1) →
+      ((Except.error Err.zeroDivision : Except Err Poly) = .error .zeroDivision ↔
+        (b = [] ∨ ¬ IsCoprime (toPoly p a) (toPoly p b))) ∧
+      ∀ s, (Except.error Err.zeroDivision : Except Err Poly) = .ok s →
+        WF p s ∧ toPoly p b ∣ toPoly p s * toPoly p a - 1 := by
+    intro hnu
+    simp only [true_iff, reduceCtorEq, false_imp_iff, implies_true, and_true]
+    right
+    exact fun h => hnu (hcop.mpr h)
   unfold invert
   rw [if_neg hb0, hinv]
   simp only
-  by_cases hu : ∃ c, r.1 = [c]
-  · obtain ⟨c, hc⟩ := hu
-    have hunit := (length_eq_one_iff_isUnit hw).mp ⟨c, hc⟩
-    rw [hc]
+  rcases hr1 : r.1 with _ | ⟨c, _ | ⟨c2, l⟩⟩
+  · apply herr
+    rw [hr1]; simp
+  · have hunit := (length_eq_one_iff_isUnit hw).mp ⟨c, hr1⟩
     simp only [reduceCtorEq, hb0, false_or, false_iff, not_not]
     refine ⟨hcop.mp hunit, ?_⟩
     intro s hs
     simp only [Except.ok.injEq] at hs
     subst hs
     have hcne : (c : ZMod p) ≠ 0 := by
-      have := coeff_last_ne_zero hw (by rw [hc]; simp)
-      rw [hc] at this
+      have := coeff_last_ne_zero hw (by rw [hr1]; simp)
+      rw [hr1] at this
       simpa [coeff_toPoly] using this
     have hcinv := invModP_cast hcne
     refine ⟨wf_scale (by rw [hcinv]; exact inv_ne_zero hcne) ws, ?_⟩
     rw [toPoly_scale, hcinv]
-    rw [hc] at e
+    rw [hr1] at e
     simp only [toPoly_cons, toPoly_nil, mul_zero, add_zero] at e
     refine ⟨- (C (c : ZMod p)⁻¹ * toPoly p r.2.2), ?_⟩
     have : (1 : (ZMod p)[X]) = C (c : ZMod p)⁻¹ * C (c : ZMod p) := by
       rw [← C_mul, inv_mul_cancel₀ hcne, C_1]
     rw [this, ← e]
     ring
-  · have hnu : ¬ IsUnit (toPoly p r.1) := fun h => hu ((length_eq_one_iff_isUnit hw).mpr h)
-    have hres : (match r.1 with
-        | [c] => Except.ok (scale p (invModP p c) r.2.1)
-        | _ => Except.error Err.zeroDivision) = Except.error Err.zeroDivision := by
-      split
-      · rename_i c hc; exact absurd ⟨c, hc⟩ hu
-      · rfl
-    rw [hres]
-    simp only [true_iff, reduceCtorEq, false_imp_iff, implies_true, and_true]
-    right
-    exact fun h => hnu (hcop.mpr h)
+  · apply herr
+    intro hu
+    obtain ⟨c', hc'⟩ := (length_eq_one_iff_isUnit hw).mpr hu
+    rw [hr1] at hc'
+    simp at hc'
 
 end MpycV.GFpX
